@@ -9,6 +9,7 @@ CONSTANTS KCh,            \* kernel chains of the model, e.g. {"K1"} or {"K1", "
           Modes,          \* subset of {"insert", "append"}
           OwnsAllSet,     \* subset of BOOLEAN (TRUE = nftables.Table semantics)
           Rich,           \* 0..2: size of the menus
+          WithMaps,       \* BOOLEAN: design-leg variant with nftables verdict maps (slim chain menus)
           StartExtras     \* sets of pre-existing non-kernel chains to start from (subsets of DOMAIN ExtraChains)
 
 b(i) == [id |-> i, tgt |-> ""]
@@ -17,26 +18,44 @@ f(i) == [h |-> "", id |-> i, tgt |-> ""]                     \* a foreign rule
 st(i, t) == [h |-> "STALE", id |-> i, tgt |-> t]            \* a rule of an earlier Felix (other hash)
 old(i, t) == [h |-> "", id |-> i, tgt |-> t]                 \* pre-hash Felix hook rule (jump to one of our chains)
 
+\* nftables verdict maps (workload dispatch): interface -> goto chain; vm = the rule that looks the map up
+FwMap == "filter-cali-fw"
+mm(k, t) == [k |-> k, tgt |-> t]
+vm(i) == [id |-> i, tgt |-> "@" \o FwMap]
+MapMenu == {{mm("e1", "cali-a")}, {mm("e1", "cali-a"), mm("e2", "cali-b")}} \cup (IF Rich >= 1 THEN {{}, {mm("e2", "cali-a")}} ELSE {})
+MapEdits == {[kind |-> "deltable"], [kind |-> "delmember", map |-> FwMap, k |-> "e1"]}
+            \cup (IF Rich >= 1 THEN {[kind |-> "delmap", map |-> FwMap], [kind |-> "addmember", map |-> FwMap, k |-> "e9", tgt |-> "cali-a"],
+                                     [kind |-> "addmap", map |-> "filter-cali-old", members |-> {mm("e1", "cali-a")}]} ELSE {})
+\* effect of a map edit on <<chains, maps>> (deltable: `nft delete table`, only the nftables table is one object)
+EditFnM(k, km, e) ==
+    CASE e.kind = "deltable" -> <<IF cfg.ownsAll THEN [c \in {} |-> <<>>] ELSE k, [c \in {} |-> {}]>>
+      [] e.kind = "delmap" -> <<k, [n \in DOMAIN km \ {e.map} |-> km[n]]>>
+      [] e.kind = "addmap" -> <<k, [n \in DOMAIN km \cup {e.map} |-> IF n = e.map THEN e.members ELSE km[n]]>>
+      [] e.kind = "delmember" -> <<k, IF e.map \in DOMAIN km THEN [km EXCEPT ![e.map] = { m \in @ : m.k # e.k }] ELSE km>>
+      [] e.kind = "addmember" -> <<k, IF e.map \in DOMAIN km THEN [km EXCEPT ![e.map] = @ \cup {mm(e.k, e.tgt)}] ELSE km>>
+
 DesChains == {"cali-a", "cali-b"}
 \* (rules, ForceProgramming) variants; cali-a may jump to cali-b, cali-b may have zero rules
 cm(rs, fp) == [rules |-> rs, force |-> fp]
 ChainMenu(c) ==
+    IF WithMaps THEN {cm(<<b(1)>>, FALSE)} ELSE
     IF c = "cali-a"
       THEN {cm(<<b(1)>>, FALSE), cm(<<b(1), j(2, "cali-b")>>, FALSE), cm(<<b(1), j(2, "cali-b")>>, TRUE)}
            \cup (IF Rich >= 1 THEN {cm(<<>>, FALSE), cm(<<b(1), b(2)>>, FALSE)} ELSE {})
            \cup (IF Rich >= 2 THEN {cm(<<b(2), b(1)>>, FALSE), cm(<<b(1), b(2), b(3)>>, FALSE), cm(<<b(2)>>, TRUE)} ELSE {})
       ELSE {cm(<<b(1)>>, FALSE), cm(<<>>, FALSE)} \cup (IF Rich >= 1 THEN {cm(<<b(1), b(2)>>, FALSE)} ELSE {})
                       \cup (IF Rich >= 2 THEN {cm(<<b(2)>>, TRUE), cm(<<b(3), b(1)>>, FALSE)} ELSE {})
-InsMenu == {<<>>, <<b(3), j(5, "cali-a")>>}
+InsMenu == IF WithMaps THEN {<<>>, <<vm(6)>>} ELSE {<<>>, <<b(3), j(5, "cali-a")>>}
            \cup (IF Rich >= 1 THEN {<<j(5, "cali-a")>>} ELSE {})
            \cup (IF Rich >= 2 THEN {<<j(6, "cali-b"), j(5, "cali-a")>>, <<b(3)>>} ELSE {})
-AppMenu == {<<>>, <<b(4)>>} \cup (IF Rich >= 2 THEN {<<j(6, "cali-b")>>} ELSE {})
+AppMenu == (IF WithMaps THEN {<<>>} ELSE {<<>>, <<b(4)>>}) \cup (IF Rich >= 2 THEN {<<j(6, "cali-b")>>} ELSE {})
 
 \* ---- out-of-band edits -------------------------------------------------------------------------
 InsertAt(s, i, r) == SubSeq(s, 1, i) \o <<r>> \o SubSeq(s, i + 1, Len(s))       \* i = 0 .. Len(s)
 RemoveAt(s, i) == SubSeq(s, 1, i - 1) \o SubSeq(s, i + 1, Len(s))
 Swap12(s) == <<s[2], s[1]>> \o SubSeq(s, 3, Len(s))
 Edits ==
+    IF WithMaps THEN { [kind |-> "delchain", chain |-> "cali-a"], [kind |-> "ins", chain |-> "cali-a", pos |-> 0, rule |-> f(7)] } ELSE
     { [kind |-> "ins", chain |-> k, pos |-> p, rule |-> r] :
         k \in KCh, p \in {0, 9},
         r \in {f(7), st(1, "")} \cup (IF Rich >= 1 THEN {old(8, "cali-old")} ELSE {})
